@@ -12,7 +12,7 @@
    declaration, misc / comments before the root, the root element, misc after it) and every node is well formed (WfX).
    No lexer state, no fuel, no tables: names are Names (RoundTripAttrs.clean_name: letters, digits, '-', '_', ':', '.').
 
-   RELAXATIONS with respect to the XML 1.0 grammar - every one is something the loader ACCEPTS, so a sound reading has to
+   RELAXATIONS R1..R7 with respect to the XML 1.0 grammar - every one is something the loader ACCEPTS, so a sound reading has to
    allow it (examples of each on the implementation's model: Xml/ReadingExamples.v):
      R1  Comment: "--" may occur inside (only the first "-->" ends it)                              [XML: forbidden]
      R2  PI: any body without '>' - the target may be empty or not a Name, "?>" ends at the first '>' [XML: PITarget Name]
@@ -22,8 +22,6 @@
      R6  the XML declaration is read by position of '=' and the last byte only: quotes are not checked,
          pseudo-attributes may repeat or be unknown (XmlDeclR below)                                 [XML: XMLDecl]
      R7  any byte except '<' is character data (control characters, "]]>")                           [XML: Char, no "]]>"]
-     R8  a tag may end with a DANGLING attribute: text '=' quote blanks, with no closing quote (an open quote followed by blanks up to the end of the tag): the loader
-         ignores it silently, the name is not even looked up (WfTrail)                               [XML: not well formed]
    RESTRICTIONS (well-formed XML outside the subset - rejected by the loader, not read by Reads): no DOCTYPE, no CDATA
    sections, no '>' inside attribute values or PIs, no blank before '>' of an end tag or around '=', no comment after
    the root element, UTF-8 only. *)
@@ -70,11 +68,9 @@ Definition WfAttr (a : xattr) : Prop :=
 (* the target of a processing instruction: the text up to the first blank *)
 Definition pi_target (body : list N) : list N := hd [] (split_ws body).
 
-(* R8: what may stand between the last attribute and the end of a tag *)
-Definition WfTrail (trail : list N) : Prop :=
-  allws trail \/
-  exists pre nm q w, trail = pre ++ nm ++ [61; q] ++ w /\ pre <> [] /\ allws pre /\ no_byte 61 nm /\ (q = 34 \/ q = 39) /\
-                     w <> [] /\ allws w /\ no_byte 62 nm.
+(* what may stand between the last attribute and the end of a tag: blanks.  (Before fix of the dangling-attribute defect
+   the loader also accepted, and silently ignored, `text = quote blanks` without a closing quote there.) *)
+Definition WfTrail (trail : list N) : Prop := allws trail.
 
 Inductive WfX : xml -> Prop :=
 | wf_text t : t <> [] -> no_byte 60 t -> WfX (XText t)
